@@ -211,10 +211,14 @@ class DirectObjectAccess:
         return tuple(self._create_access_path(cls) for cls in self._obj.__mro__[1:])
 
     def py__getitem__all_values(self):
+        # Use the builtin implementations, subclasses might define values() or
+        # __iter__ themselves and user code should not be executed here.
         if isinstance(self._obj, dict):
-            return [self._create_access_path(v) for v in self._obj.values()]
-        if isinstance(self._obj, (list, tuple)):
-            return [self._create_access_path(v) for v in self._obj]
+            return [self._create_access_path(v) for v in dict.values(self._obj)]
+        if isinstance(self._obj, list):
+            return [self._create_access_path(v) for v in list.__iter__(self._obj)]
+        if isinstance(self._obj, tuple):
+            return [self._create_access_path(v) for v in tuple.__iter__(self._obj)]
 
         if self.is_instance():
             cls = DirectObjectAccess(self._inference_state, self._obj.__class__)
